@@ -213,6 +213,7 @@ _MC_FAULTS = ["accept_draw_extreme", "move_type_pinned", "atom_index_pinned", "t
 
 _reg("C06", engine="mc", level="exploration",
      runs={"quick": 2400, "thorough": 160000}, block=8,
+     cross_interpreter={"quick": 8, "thorough": 128},
      technique="deterministic simulation of the Monte-Carlo alignment under a seeded + adversarially overridden random stream; end-state oracles; every run executed twice (bit-identical) and a sample re-executed in a fresh interpreter under another hash seed",
      level_text=("Sampled molecule pairs (1..40 atoms, either one larger, ties, one-atom molecules), restraint lists, deformation-type "
                  "subsets, hydrogen settings, knobs (STEPS_FACTOR, SIGMA_SCALE) and random streams, including injected regimes an "
@@ -416,6 +417,7 @@ _reg("C05", engine="pipeline", level="exploration",
 
 _reg("C20", engine="cli", level="exploration",
      runs={"quick": 400, "thorough": 20000}, block=2,
+     cross_interpreter={"quick": 8, "thorough": 48},
      budget={"quick": 200, "thorough": 2400},
      technique="deterministic simulation of the CLI: random seam (same seed, digest comparison) for CLI-vs-library equivalence; set seam (scheduler-chosen iteration order of the discovery sets) and scheduler-chosen candidate order for discovery; real subprocesses under different hash seeds as a cross-check",
      level_text=("Sampled worlds (1..4 species incl. 1-/2-atom references, solvent, distractor files) plus the shipped BMIM/BF4 box.  "
